@@ -194,7 +194,7 @@ pub fn record_c04(rng: &mut Rng, count: u64, out: &mut Out) {
     let depth = if k % 3 == 0 { 29 - rng.below(3) as u8 } else { rng.below(30) as u8 };
     if k % 40 == 39 {
       // out-of-range cell number must be rejected
-      let h = n_hash(depth) + rng.below(1000);
+      let h = bad_cell_number(rng, n_hash(depth), 1u64 << (2 * depth as u32));
       let layer = nested::get_or_create(depth);
       let r1 = guarded(|| layer.neighbours(h, false)).is_none();
       let r2 = guarded(|| layer.neighbour(h, MainWind::E)).is_none();
@@ -462,7 +462,7 @@ pub fn record_c03(rng: &mut Rng, count: u64, out: &mut Out) {
       }
       3 => {
         // a cell number >= 12 * 4^depth is rejected by every accessor
-        let h = n_hash(depth) + rng.below(3) * rng.below(1 << 20);
+        let h = bad_cell_number(rng, n_hash(depth), 1u64 << (2 * depth as u32));
         let layer = nested::get_or_create(depth);
         let ps = [guarded(|| layer.center(h)).is_none(), guarded(|| layer.vertices(h)).is_none(), guarded(|| layer.vertex(h, card("N"))).is_none(),
                   guarded(|| layer.sph_coo(h, 0.5, 0.5)).is_none(), guarded(|| layer.path_along_cell_edge(h, &card("S"), true, 2)).is_none(),
